@@ -122,6 +122,8 @@ class Monitors:
             start, cnt = await orig_calc(self_, count)
             mon.bump('reorg_ranges')
             mon.bump(f'reorg_depth_{cnt}')
+            if cnt >= 6:
+                mon.bump('reorg_depth_6_or_more')      # deeper than the five block files kept on disk: orphaned blocks are downloaded again
             if cnt >= 4 and count < 0:
                 mon.bump('reorg_range_doubling_branch')
             if count >= 0:
